@@ -15,6 +15,7 @@ pub struct MarkdownEventsReader {
     blocks: DocumentBlocks,
     line_starts: Vec<usize>,
     metadata_block: bool,
+    html_block: bool,
     metadata: Option<String>,
 }
 
@@ -27,6 +28,7 @@ impl MarkdownEventsReader {
             blocks: Vec::new(),
             line_starts: Vec::new(),
             metadata_block: false,
+            html_block: false,
             metadata: None,
         }
     }
@@ -62,7 +64,9 @@ impl MarkdownEventsReader {
                     self.end_tag(tag, range);
                 }
                 Text(text) => {
-                    if !self.metadata_block {
+                    if self.html_block {
+                        // indentation inside a raw HTML block, dropped together with the block
+                    } else if !self.metadata_block {
                         match self.top_block() {
                             DocumentBlock::CodeBlock(code_block) => {
                                 code_block.text = format!("{}{}", code_block.text, text.to_string())
@@ -190,7 +194,7 @@ impl MarkdownEventsReader {
                     text: String::default(),
                 }))
             }
-            Tag::HtmlBlock => {}
+            Tag::HtmlBlock => self.html_block = true,
             Tag::List(num) => {
                 if num.is_some() {
                     self.push_block(DocumentBlock::OrderedList(OrderedList { items: vec![] }));
@@ -308,7 +312,7 @@ impl MarkdownEventsReader {
             TagEnd::CodeBlock => {
                 self.pop_block();
             }
-            TagEnd::HtmlBlock => {}
+            TagEnd::HtmlBlock => self.html_block = false,
             TagEnd::List(_) => {
                 self.pop_block();
             }
